@@ -99,6 +99,7 @@ struct Outcome {
     std::vector<std::pair<std::string, std::string> > bad;   // (signature, detail)
     unsigned mask = 0;     // bit h: helper h produced a result; bits 8..: truth per element (first 3); bits 12..: matched element + 1
     bool any = false;
+    int calls = 0;         // helpers actually invoked
     bool base_not_found = false;   // head really is a T (dynamic_cast) but the search found nothing: allowed, reported as information
 };
 struct TRow {
@@ -129,14 +130,19 @@ static void check(const Chain& c, const TRow& t, Outcome& out) {
         if (truth[i] && i < 3) out.mask |= 1u << (8 + i);
     }
     const void* r[7] = {0, 0, 0, 0, 0, 0, 0};
+    // The throwing variants are thin wrappers (find_pdu / tins_cast<T*> + throw on null).  Singles and pairs call all seven
+    // unconditionally; in chains of three or more they are only called when their non-throwing twin succeeded (otherwise all
+    // they would do is throw: ~3 exceptions per evaluation x 10^8 evaluations).
+    const bool all = n < 3;
     r[0] = head->find_pdu<T>();
     r[1] = chead->find_pdu<T>();
-    try { r[2] = &head->rfind_pdu<T>(); } catch (Tins::pdu_not_found&) { r[2] = 0; }
-    try { r[3] = &chead->rfind_pdu<T>(); } catch (Tins::pdu_not_found&) { r[3] = 0; }
+    out.calls = 4;
+    if (all || r[0]) { ++out.calls; try { r[2] = &head->rfind_pdu<T>(); } catch (Tins::pdu_not_found&) { r[2] = 0; } }
+    if (all || r[1]) { ++out.calls; try { r[3] = &chead->rfind_pdu<T>(); } catch (Tins::pdu_not_found&) { r[3] = 0; } }
     r[4] = Tins::tins_cast<T*>(head);
     r[5] = Tins::tins_cast<const T*>(chead);
-    try { r[6] = &Tins::tins_cast<T>(*head); } catch (Tins::bad_tins_cast&) { r[6] = 0; }
-
+    if (all || r[4]) { ++out.calls; try { r[6] = &Tins::tins_cast<T>(*head); } catch (Tins::bad_tins_cast&) { r[6] = 0; } }
+    const bool called[7] = {true, true, all || r[0], all || r[1], true, true, all || r[4]};
     if (truth[0] && !r[0]) out.base_not_found = true;
     for (int h = 0; h < 7; ++h) {
         const bool search = h < 4;
@@ -173,7 +179,7 @@ static void check(const Chain& c, const TRow& t, Outcome& out) {
                                                           " of " + c.spec + "), which is not a " + t.name));
             }
         }
-        if (search && exact >= 0) {
+        if (search && exact >= 0 && called[h]) {
             if (!r[h])
                 out.bad.push_back(std::make_pair(std::string("notfound:") + GROUP(h) + ":" + t.name,
                                                  std::string(HELPERS[h]) + "<" + t.name + "> found nothing although element " + str(exact) + " of " + c.spec + " has exactly that class"));
@@ -292,7 +298,7 @@ static int eval_chain(const std::string& spec, const std::string& stage, const s
     R.count("chains");
     R.count("chains_" + stage);
     int nbad = 0;
-    uint64_t evals = 0, with_result = 0, san = 0;
+    uint64_t evals = 0, with_result = 0, san = 0, calls = 0;
     const std::string prefix = "chain=" + spec + " t=";
     const std::string ctx = "cast-table:" + stage;
     const bool keep_distinct = o.c.e.size() <= 2;   // the (chain, T) identity set is kept for singles and pairs only (triples: counter)
@@ -304,6 +310,7 @@ static int eval_chain(const std::string& spec, const std::string& stage, const s
         Outcome out;
         t.check(o.c, t, out);
         ++evals;
+        calls += (uint64_t)out.calls;
         g_masks.insert(out.mask);
         if (out.base_not_found && o.c.e.size() == 1) g_base_not_found.insert(o.c.e[0].kname + " as " + t.name);
         if (out.any) {
@@ -338,7 +345,7 @@ static int eval_chain(const std::string& spec, const std::string& stage, const s
         if (verbose && out.bad.empty()) printf("  T=%s: ok (outcome mask %x)\n", t.name.c_str(), out.mask);
     }
     R.count("evaluations", evals);
-    R.count("helper_calls", 7 * evals);
+    R.count("helper_calls", calls);
     R.count("evaluations_with_a_result", with_result);
     if (stage == "single") R.count("pairs_K_T", evals);
     if (san) R.count("sanitizer_reports", san);
